@@ -86,6 +86,7 @@ func constVal(info *types.Info, e ast.Expr) string {
 }
 
 func c08(r *core.Report) {
+	lookupFolding(r, "C08.lookup")
 	p := r.Prog
 	info := p.Pkg("openapi3filter").TypesInfo
 	oinfo := p.Pkg("openapi3").TypesInfo
